@@ -136,7 +136,8 @@ def run_case(rec: Recorder, case: dict[str, typing.Any]) -> None:
                 first_url = "/d0/h0"
             elif case["client"] == "manager":
                 client = urllib3.PoolManager(**lvl)
-                first_url = start
+                # a URL without scheme is (still) accepted and fetched as http: Locations are resolved against that URL
+                first_url = start.split("://", 1)[1] if case.get("schemeless_start") and start.startswith("http://") else start
             else:
                 client = urllib3.ProxyManager("http://proxy.test:3128", **lvl)
                 first_url = start
@@ -232,6 +233,10 @@ def run_case(rec: Recorder, case: dict[str, typing.Any]) -> None:
                 rec.fail(case, "exhaustion-not-last-3xx", dict(obs, want=w["code"]), f"budget exhausted without raise_on_redirect: expected the {w['code']} response, got {getattr(result, 'status', None)} exc {exc!r}")
     else:
         rec.count("stopped_earlier_than_budget_allows")
+        rec.count("stopped_early_with_" + (type(exc).__name__ if exc else "status-" + str(getattr(result, "status", None))) + "_" + case["client"])
+        if not isinstance(exc, MaxRetryError):
+            # budget left, a Location to follow, and the call ended neither with the final response nor by exhausting a budget
+            rec.fail(case, "redirect-not-followed", dict(obs, schemeless_start=bool(case.get("schemeless_start")), location=walk[follow]["location"] if follow < len(walk) else None), f"{follow} of {expected_follow} redirects followed, then {exc!r} / status {getattr(result, 'status', None)}")
     # cross-check of the reference resolver against urllib.parse.urljoin (evidence only)
     for w in walk[:6]:
         if w["location"] is not None:
@@ -273,6 +278,8 @@ def random_case(rng: typing.Any) -> dict[str, typing.Any]:
     b, _, _ = effective(case)
     if loop and b >= INF:
         case["loop"] = False
+    if client == "manager" and rng.random() < 0.12:
+        case["schemeless_start"] = True
     return case
 
 
@@ -295,6 +302,18 @@ def run_shard(ctx: Ctx, rec: Recorder) -> None:
                         rec.case(["sys", case])
                         run_case(rec, case)
     rec.exhaustive_parts.append(f"{len(POLICIES)-1} policy values x 3 placements x 3 clients x chain lengths 1-4 x 5 status codes")
+    # (i-a) the first URL given without scheme, every Location form on the first hop
+    for form in FORMS:
+        for code in (302, 307):
+            idx += 1
+            if not ctx.mine(idx):
+                continue
+            case = {"client": "manager", "hops": [{"code": code, "to": "A", "form": form}, {"code": 302, "to": "B", "form": "absolute"}], "loop": False, "policy_req": None, "policy_lvl2": None, "method": "GET", "redirect_kw": True, "schemeless_start": True}
+            rec.case(["schemeless-start", form, code])
+            rec.mon("schemeless_start")
+            with __import__("warnings").catch_warnings():
+                __import__("warnings").simplefilter("ignore")
+                run_case(rec, case)
     for client in ("manager", "proxy", "pool"):
         for pol in (None, {"redirect": 0}, {"redirect": 1}, {"redirect": 1, "raise_on_redirect": False}):
             for placement in ("request", "level2"):
